@@ -66,6 +66,9 @@ struct Out {
     failed: Vec<bool>,
     call_errors: u32,
     kept: Vec<RawPeer>,
+    /// first connections of publishers that rejoined without closing them (two live connections
+    /// under one identity)
+    twins: Vec<(usize, RawPeer)>,
 }
 
 fn run_world(ctx: &mut Ctx, steps: Vec<Step>, npeers: usize) {
@@ -79,7 +82,7 @@ fn run_world_x(ctx: &mut Ctx, steps: Vec<Step>, npeers: usize, in_flight: bool) 
     // step let background handshakes advance into the middle of the history
     let gaps: Vec<u32> = steps.iter().map(|_| ctx.plan(4) as u32).collect();
     let closes_first = ctx.plan(3) != 0;
-    let out = Rc::new(RefCell::new(Out { viol: vec![], done: false, peers: (0..npeers).map(|_| None).collect(), failed: vec![false; npeers], call_errors: 0, kept: Vec::new() }));
+    let out = Rc::new(RefCell::new(Out { viol: vec![], done: false, peers: (0..npeers).map(|_| None).collect(), failed: vec![false; npeers], call_errors: 0, kept: Vec::new(), twins: Vec::new() }));
     let o2 = out.clone();
     let steps2 = steps.clone();
     rt::task::spawn_local("app", async move {
@@ -109,7 +112,7 @@ fn run_world_x(ctx: &mut Ctx, steps: Vec<Step>, npeers: usize, in_flight: bool) 
                     if closes_first {
                         old.close();
                     } else {
-                        o2.borrow_mut().kept.push(old);
+                        o2.borrow_mut().twins.push((*p, old));
                     }
                     rt::count("probe_publisher_rejoined_under_its_identity");
                     let Ok(mut peer) = RawPeer::connect(&ep) else { continue };
@@ -228,6 +231,21 @@ fn run_world_x(ctx: &mut Ctx, steps: Vec<Step>, npeers: usize, in_flight: bool) 
                     let clause = if in_flight { "view_wrong_when_rejoin_overlaps_handshake" } else if any_failed { "peer_view_wrong_after_one_peer_failed" } else { "peer_view_differs_from_socket" };
                     ctx.violation(clause, format!("publisher {i} believes the subscriptions are {:?} but the socket's set is {:?}; history {:?}", v, model, steps));
                     break;
+                }
+            }
+        }
+        // a first connection that its publisher left open when it joined again under the same
+        // identity: the socket may drop it (it does), but if it still holds it at quiescence that
+        // publisher is a connected peer like any other and must know the socket's set
+        if !dup && !in_flight {
+            for (i, p) in &o.twins {
+                if !p.library_released() && rc::parse_stream(&p.inbound_raw()).items.len() >= 2 {
+                    let v = support(&fold(&p.inbound_raw()));
+                    if v != model {
+                        ctx.violation("connected_twin_not_told", format!("publisher {i} joined a second time under its identity without closing its first connection; the socket still holds the first connection at quiescence, and on it the publisher believes the subscriptions are {:?} while the socket's set is {:?}; history {:?}", v, model, steps));
+                        break;
+                    }
+                    ctx.probe("twin_connection_still_held_and_judged");
                 }
             }
         }
